@@ -116,6 +116,14 @@ func (e *Engine) lockAction(kind string) externFn {
 			if isDeclared {
 				e.proveLockInv(st, pos)
 			}
+			if e.rootC != nil && len(e.rootC.Extra["lockhavoc"]) > 0 && e.rootFr != nil {
+				// what this call assumes of the others when it takes the mutex, it owes them when it releases it
+				se := e.specEnv(st, e.oldOf(st), e.rootFr)
+				se.vars = e.params
+				for i, r := range e.rootC.Rely {
+					e.obligation(st, "guarantee", fmt.Sprintf("rely%d@%s", i, pos), e.evalBool(r.E, se), "the rely holds again when the mutex is released: "+r.Src)
+				}
+			}
 		case "RUnlock":
 			e.obligation(st, "unlock-of-unlocked", pos, mkBoolTerm(st.held["R:"+key] || !e.tracksLocks()), "RUnlock of a mutex this call does not hold read-locked")
 		case "Lock", "RLock":
@@ -163,9 +171,74 @@ func (e *Engine) lockAction(kind string) externFn {
 			if isDeclared && (kind == "Lock" || kind == "RLock") {
 				e.assumeLockInv(st)
 			}
+			if kind == "Lock" && e.rootC != nil && len(e.rootC.Extra["lockhavoc"]) > 0 && fr != nil {
+				e.lockHavoc(st, fr)
+			}
 			k(st, fr, res)
 		}, nil)
 	}
+}
+
+// lockHavoc (`opt lockhavoc on`): interference at lock acquisition. Everything other goroutines may have done before
+// this call got the mutex is modelled by forgetting every heap, map and the allocation counter and assuming the
+// contract's `rely` clauses (the shared structure's invariant) in the new state; the path's "old" state is re-based
+// here, so the ensures speak about what the call does from this moment on. Values read BEFORE the lock are stale:
+// code that keeps using them (instead of re-reading under the lock) fails the ensures.
+func (e *Engine) lockHavoc(st *State, fr *Frame) {
+	// materialise every heap that has been looked at so far (reads do not enter st.objHeap): all of them are shared
+	// memory that another goroutine may have written
+	e.ctx.mu.Lock()
+	decls := append([]Decl(nil), e.ctx.decls...)
+	e.ctx.mu.Unlock()
+	for _, d := range decls {
+		if !strings.HasSuffix(d.Name, "_0") || !strings.HasPrefix(d.Text, "(declare-const "+d.Name+" ") {
+			continue
+		}
+		key := strings.TrimSuffix(d.Name, "_0")
+		sort := Sort(strings.TrimSuffix(strings.TrimPrefix(d.Text, "(declare-const "+d.Name+" "), ")"))
+		switch {
+		case strings.HasPrefix(key, "HO_"):
+			if _, ok := st.objHeap[key]; !ok {
+				st.objHeap[key] = Term{d.Name, sort}
+			}
+		case strings.HasPrefix(key, "HS_"):
+			if _, ok := st.sliceHeap[key]; !ok {
+				st.sliceHeap[key] = Term{d.Name, sort}
+			}
+		}
+	}
+	prev := st.Clone()
+	e.havocAllHeaps(st)
+	e.havocMaps(st)
+	// memory this call allocated itself (an escaping parameter's cell, a value boxed for the map) is not yet visible
+	// to anybody else: it keeps its contents
+	for _, k := range sortedKeys(st.objHeap) {
+		cur, was := st.objHeap[k], prev.objHeap[k]
+		if was.S == "" || cur.S == was.S {
+			continue
+		}
+		qr := e.allocID(Term{"q_r", SInt})
+		st.Assume(T(SBool, "(forall ((q_r Int)) (! (=> (<= %s %s) (= (select %s q_r) (select %s q_r))) :pattern ((select %s q_r))))", e.next0.S, qr.S, cur.S, was.S, cur.S))
+	}
+	for _, k := range sortedKeys(st.sliceHeap) {
+		cur, was := st.sliceHeap[k], prev.sliceHeap[k]
+		if was.S == "" || cur.S == was.S {
+			continue
+		}
+		st.Assume(T(SBool, "(forall ((q_b Int)) (! (=> (<= %s q_b) (= (select %s q_b) (select %s q_b))) :pattern ((select %s q_b))))", e.next0.S, cur.S, was.S, cur.S))
+	}
+	nn := e.ctx.Fresh("next_lk", SInt)
+	st.Assume(Le(st.next, nn))
+	st.next = nn
+	se := e.specEnv(st, prev, e.rootFr)
+	se.vars = e.params
+	for _, r := range e.rootC.Rely {
+		st.Assume(e.evalBool(r.E, se))
+	}
+	st.base = nil
+	b := st.Clone()
+	st.base = b
+	e.note("opt lockhavoc: interference is modelled at the acquisition of the mutex only (not between other atomic steps)")
 }
 
 // tracksLocks: lock bookkeeping obligations only where a lock is declared (other atomic-mode contracts describe
